@@ -152,7 +152,7 @@ def run(ctx):
                'interpolate_variable clamps to 0.999*a_max by design: anything between the interpolants at 0.999*a_max and a_max is accepted',
                'rtol 1e-11 (1e-9 for the composite SED)')
     ctx.require_events('ConvolvedFluxes.interpolate:post', 'SED.interpolate:post', 'SED.interpolate_variable:post', 'variable:node-checked',
-                       'refused:convolved', 'refused:sed', 'refused:variable')
+                       'refused:convolved', 'refused:sed', 'refused:variable', 'convolved:same-table-again')
     ctx.require_regimes('single-aperture', 'unit:pc', 'unit:cm', 'sed-apertures:cm', 'above-table', 'on-knot')
     n_it = 250 if ctx.quick else 10000
     for it in range(n_it):
@@ -192,6 +192,12 @@ def run(ctx):
         wit = {'table': tq, 'request': rq, 'n_models': n_m}
         try:
             cf.interpolate(rq)
+            if it % 3 == 0:
+                # the same table interpolated again to other radii and to the first ones once more: no state may carry over
+                # (the contract snapshots request and table before every call)
+                cf.interpolate((requests(rng, tab_au, 3) * (1 + 1e-9) * u.au).to(u.Unit(runit)))
+                cf.interpolate((req * (1 + 1e-9) * u.au).to(u.Unit(runit)))
+                ctx.event('convolved:same-table-again')
         except Exception as exc:
             ctx.violation('convolved:raised', 'ConvolvedFluxes.interpolate raised inside the table: %r' % (exc,), wit)
         ctx.case(('cf', it, ctx.shard), nontrivial=n_ap >= 2, sample={'table_au': tab_au, 'request_au': req} if it < 3 else None)
@@ -226,6 +232,9 @@ def run(ctx):
         wit = {'table_au': tab_s, 'request_au': req, 'sed_aperture_unit': sunit}
         try:
             s.interpolate(req.copy())
+            if it % 3 == 0:
+                s.interpolate(requests(rng, tab_s, 2) * (1 + 1e-9))
+                s.interpolate(req.copy())
         except Exception as exc:
             ctx.violation('sed:raised:%s' % type(exc).__name__, 'SED.interpolate raised for radii inside/above the table: %r' % (exc,), wit)
         ctx.case(('sed', it, ctx.shard), nontrivial=n_ap >= 2)
